@@ -23,10 +23,10 @@ ByIdx  == {"missing", "true", "false"}
 
 ScalarActs(a) ==
        {F([op |-> "with", attr |-> a, v |-> v, kw |-> kw], fl) : v \in S(P(a).vp) \cup {Unchanged}, kw \in S(P(a).kwp), fl \in Flags}
-  \cup {F([op |-> "update", attr |-> a, v |-> v, kw |-> kw], fl) : v \in S(P(a).up), kw \in S(P(a).kwp), fl \in CowInp}
+  \cup {F([op |-> "update", attr |-> a, v |-> v, kw |-> kw], fl) : v \in S(P(a).up) \cup {Unchanged}, kw \in S(P(a).kwp), fl \in CowInp}
   \cup {F([op |-> "transform", attr |-> a, f |-> f, kwf |-> kwf], fl) : f \in S(P(a).fp), kwf \in S(P(a).kwfp), fl \in Flags}
   \cup {F([op |-> "reset", attr |-> a], fl) : fl \in Flags}
-  \cup {[op |-> "setattr", attr |-> a, v |-> v] : v \in S(P(a).vp)}
+  \cup {[op |-> "setattr", attr |-> a, v |-> v] : v \in S(P(a).vp) \cup {Unchanged}}
   \cup {[op |-> "delattr", attr |-> a]}
 
 ElemActs(a) ==
